@@ -33,6 +33,8 @@ def run(ctx):
         "the judge (K1 subsetB, isEmptyB, disjointB) is proved sound and complete; 'all inputs' of the real code is sampled by seeded histories per instantiation",
         "the exact result is computed from the arguments as the library reports them through constraints() (numer_denom is exact for every T)",
         "precision is never judged for inexact T (DESIGN section 4 (vii))",
+        "floating-point T at the range limit: only the operators listed in coverage.limit_history_policy are exercised there (skips are counted); "
+        "for an inexact T the matrix of a BD shape marked reduced is read through a copy whose reduced flag has been cleared (constraints() of a reduced shape is a weaker reading)",
     ]
 
 
